@@ -1,4 +1,5 @@
 import Zlink.Model.Notified
+import Zlink.Proofs.NotifiedRun
 /-! # C20 — Notified state: subscribers converge on the latest value, in order
 
 Model: `Zlink/Model/Notified.lean`. The channels are modelled (third-party); the theorems are about zlink's
@@ -54,6 +55,18 @@ theorem C20_cursor_monotone (c : Chan) (r : Rcv) (h : r.cursor ≤ c.seq) :
 theorem C20_subscribe_sees_later_only (c : Chan) : (pollSmol c c.subscribe).1 = .pending := by
   simp [pollSmol, recvSmol, Chan.subscribe]
 
+/-- **Order, for whole histories.** For EVERY history of sets, subscriptions, polls of any subscriber and the end of the
+    state, in both runtimes: the values handed to the subscriber created by the `(n+1)`-th `sub` are a subsequence, in
+    order, of the values set *after* that `sub` - nothing from before it subscribed, nothing twice, nothing out of
+    order; intermediate values may be skipped. -/
+theorem C20_order (ops : List Op) (n : Nat) :
+    (itemsOf n (run pollSmol ops init)).Sublist (setsAfterSub n ops) ∧
+    run pollTokio ops init = run pollSmol ops init := by
+  constructor
+  · have := items_future ops init n
+    simpa [init] using this
+  · exact run_tokio_eq_smol ops init (by intro r hr; simp [init] at hr)
+
 /-- **When the state goes away**: a value set before the last handle was dropped is still delivered (marked continuing),
     and only then does the subscription end - in both runtimes alike; a subscriber that was up to date ends at once. -/
 theorem C20_after_close (c : Chan) (r : Rcv) (h : r.cursor ≤ c.seq) :
@@ -79,6 +92,9 @@ namespace Example
 def ops : List Op := [.sub, .set 1, .set 2, .sub, .poll 0, .poll 1, .set 3, .poll 1, .poll 0, .poll 0]
 example : run pollTokio ops init = [(0, .item 2 true), (1, .pending), (1, .item 3 true), (0, .item 3 true), (0, .pending)] := by decide
 example : run pollSmol ops init = run pollTokio ops init := by decide
+/-- `C20_order` on the history above: subscriber 1 (second `sub`) is handed 3; the values set after it subscribed are [3] -/
+example : itemsOf 1 (run pollSmol ops init) = [3] ∧ setsAfterSub 1 ops = [3] ∧
+    itemsOf 0 (run pollSmol ops init) = [2, 3] ∧ setsAfterSub 0 ops = [1, 2, 3] := by decide
 /-- the state is dropped with a value the first subscriber has not seen: it gets the value, then the end; the other one,
     up to date, ends at once -/
 example : run pollSmol [.sub, .sub, .set 1, .poll 1, .set 2, .poll 1, .close, .poll 0, .poll 0, .poll 1] init =
